@@ -1,4 +1,5 @@
 \* C04 and C05: behaviour generation -- print every document of the universe
+\* measured: 42 580 documents; largest intermediate value < 2^31 by CMAX = 64, RES = 128 (see Fpef.tla, Derive)
 SPECIFICATION Spec
 CONSTANTS
   UNIVERSE = "thorough"
